@@ -400,8 +400,21 @@ def run_property(modname: str, tier: str, seed: int, only: Optional[str] = None,
         results = [_worker(t) for t in tasks]
     else:
         mpctx = mp.get_context("spawn")
-        with mpctx.Pool(procs, maxtasksperchild=1) as pool:
-            results = pool.map(_worker, tasks, chunksize=1)
+        # global watchdog: a hung worker must not hang the check; whatever has not finished is reported as a harness error (exit 2)
+        budget = float(os.environ.get("VERIF_WATCHDOG_S", "2400" if tier == "quick" else "21600"))
+        pool = mpctx.Pool(procs, maxtasksperchild=1)
+        try:
+            asyncs = [pool.apply_async(_worker, (t,)) for t in tasks]
+            results = []
+            deadline = time.time() + budget
+            for t, a in zip(tasks, asyncs):
+                try:
+                    results.append(a.get(timeout=max(1.0, deadline - time.time())))
+                except mp.TimeoutError:
+                    results.append({"sub": t[2], "shard": t[5], "error": f"watchdog: sub-check did not finish within {budget:.0f} s (inconclusive, not a violation)"})
+        finally:
+            pool.terminate()
+            pool.join()
     return finish(mod, tier, seed, reg_results + results, time.time() - t0)
 
 
